@@ -5,7 +5,7 @@ token = the token just before) exactly like a binary operator, and is itself pro
 read: `listState` is the state "after the List operator", and the three step lemmas say that the list-mode step equals the
 ordinary step from `listState`.
 -/
-import Garnish.Lemmas.ParserB11
+import Garnish.Lemmas.ParserB21
 
 namespace Garnish.Spec
 open Garnish Garnish.Gen Garnish.Model.Parser
@@ -14,35 +14,6 @@ theorem prio10_not_bracket {d : Definition} (h : priority d = some 10) : isBrack
   revert h; cases d <;> decide
 
 /-! ### trivia after a value or a closed bracket -/
-
-theorem UInv.ready_cond {st : PState} {ug p : Option Nat} {base : Nat} {E : Tree} {re cb : Nat}
-    (hinv : UInv st ug p base E re cb) (hr : Ready st) :
-    ∃ i n, st.lastLeft = some i ∧ st.nodes[i]? = some n ∧
-      (n.definition.isValueLike || (n.definition.isGroupLike && some i != ug)) = true := by
-  obtain ⟨i, n, hl, hn, hc⟩ := hr
-  refine ⟨i, n, hl, hn, ?_⟩
-  rcases hc with hc | hc
-  · simp [hc]
-  · have hgl := (bracket_facts hc).2.1
-    have hne : some i ≠ ug := by
-      intro e
-      subst e
-      have hfr := hinv.n.frame
-      cases hfr with
-      | bracket g re' G pg _ _ _ _ =>
-        -- `i` would be both the closed bracket inside the frame and the open bracket below it
-        cases hb : hinv.bot with
-        | plain hl' hb' =>
-          obtain ⟨nd, hnd, _, hng⟩ := hb'
-          rw [hl] at hl'; injection hl' with hl'
-          rw [← hl', hn] at hnd; injection hnd with hnd
-          rw [← hnd, hgl] at hng; cases hng
-        | closed cb' G' _ hl' _ _ hsp =>
-          rw [hl] at hl'; injection hl' with hl'
-          have hm := onSpine_mem _ E hsp
-          have := ((hinv.n.mem _).mp hm).1
-          omega
-    simp [hgl, hne]
 
 /-- the state after a trivia token that follows a value or a closed bracket -/
 def trivSt (st : PState) (w : PToken) : PState :=
